@@ -287,6 +287,71 @@ def gen_history2(rng):
     return ops, regs
 
 
+_KEPT_LINES = {}
+
+
+def builtin_valid_line(ann, rng):
+    """A line a Strict parse accepts under the built-in layout `ann` (masked columns null), made in this process."""
+    if ann not in _KEPT_LINES:
+        from .. import colcases, impl
+        from . import c05
+        import random
+        from maflib.record import MafRecord
+        from maflib.validation import ValidationStringency as VS
+        from .. import sortcases as SC
+        r = random.Random(4242)
+        sch = impl.scheme_by_annotation(ann)
+        line = None
+        fields = list(SC._base_fields(ann, r))          # plain, strictly valid texts
+        if ann in c05.masked_layouts():
+            fields = c05.masked_clean_fields(ann, fields)
+        cand = "\t".join(fields)
+        try:
+            rec = MafRecord.from_line(cand, scheme=sch, validation_stringency=VS.Strict)
+            if str(rec) == cand:
+                line = cand
+        except Exception:  # noqa
+            pass
+        _KEPT_LINES[ann] = line
+    return _KEPT_LINES[ann]
+
+
+def gen_history_kept(rng):
+    """Records are parsed under a scheme, a registration happens, and a Strict writer of the SAME scheme opened afterwards is
+    offered those record objects: for built-in layouts (incl. the ones whose columns are mixed-in classes) and for an
+    extra registered earlier."""
+    ops, regs, extras = [], [], {}
+    k = rng.randrange(26)
+    slot = 0
+    pending = []
+    anns = ["gdc-1.0.0", "gdc-1.0.0-public", "gdc-1.0.0-protected", "gdc-2.0.0-aliquot-merged-masked", "gdc-1.0.1-public"]
+    for r in range(rng.choice([1, 2, 2])):
+        ann = rng.choice(anns)
+        line = builtin_valid_line(ann, rng)
+        if line:
+            hdr = ["#version gdc-1.0.0"] + (["#annotation.spec " + ann] if ann != "gdc-1.0.0" else [])
+            ops.append({"k": "keep", "slot": slot, "header": hdr, "records": [line]})
+            pending.append((slot, hdr))
+            slot += 1
+        for d in rng.sample(regs, min(len(regs), 1)):          # an earlier extra, too
+            names = layout_of(d["annotation"], extras)
+            row = row_of(d["annotation"], extras, rng)
+            if row is not None and names:
+                ops.append({"k": "keep", "slot": slot, "header": header_for(d), "records": ["\t".join(row[n] for n in names)]})
+                pending.append((slot, header_for(d)))
+                slot += 1
+        d = gen_def2(rng, k, regs, extras)
+        k += 1
+        if (d["version"], d["annotation"]) in {(x["version"], x["annotation"]) for x in regs}:
+            continue
+        ops.append({"k": "register", "defs": [d]})
+        regs.append(d)
+        extras[d["annotation"]] = d
+        for sl, hdr in pending:
+            ops.append({"k": "write_kept", "slot": sl, "header": hdr})
+    return ops, regs
+
+
 def analyse(out, ops, regs, steps, where):
     """The property on the implementation's answers for one history."""
     registered = {}
@@ -335,6 +400,15 @@ def analyse(out, ops, regs, steps, where):
                 out.failures.append(dict(where, what="valid records of the registered scheme (%s, %s) are not written and read back in Strict mode" % tuple(o["for"]),
                                          kind="roundtrip-failed", records=o["records"], got=s))
                 return
+        elif o["k"] == "keep":
+            if "exc" in s or s.get("kept") != len(o["records"]):
+                out.failures.append(dict(where, what="valid records of %s are not parsed in Strict mode" % (o["header"][-1],), kind="keep-failed", got=s))
+                return
+        elif o["k"] == "write_kept":
+            if "exc" in s or not s.get("ok"):
+                out.failures.append(dict(where, what="records parsed under %s before a later registration are no longer written by a Strict writer of that scheme after it" % (
+                    " / ".join(x.split(" ", 1)[1] for x in o["header"]),), kind="kept-records-refused", got=s))
+                return
         elif o["k"] == "find" and o["version"] == "gdc-1.0.0" and o["annotation"] in ("gdc-1.0.0-public", "gdc-2.0.0-aliquot", None):
             want = {"gdc-1.0.0-public": 119, "gdc-2.0.0-aliquot": 144, None: 34}[o["annotation"]]
             if len(s.get("names", [])) != want:
@@ -353,8 +427,11 @@ def analyse(out, ops, regs, steps, where):
                     return
 
 
+NON_MODEL = ("roundtrip", "keep", "write_kept")     # operations on live objects / files: implementation + oracle only
+
+
 def model_request(h):
-    ops = [o for o in h["ops"] if o["k"] != "roundtrip"]          # (write + read-back is not an operation of the model)
+    ops = [o for o in h["ops"] if o["k"] not in NON_MODEL]          # (write + read-back is not an operation of the model)
     texts = [p for o in ops if o["k"] == "read" for l in o["lines"] for p in l.split("\t")]
     return {"op": "registry.run", "ops": ops, "floats": common.float_table(texts)}
 
@@ -373,12 +450,12 @@ def eval_history(h, res, m):
         if has_unmodelled(m):
             corr = "unmodelled"
         else:
-            mops = [o for o in h["ops"] if o["k"] != "roundtrip"]
-            isteps = [x for o, x in zip(h["ops"], steps) if o["k"] != "roundtrip"]
+            mops = [o for o in h["ops"] if o["k"] not in NON_MODEL]
+            isteps = [x for o, x in zip(h["ops"], steps) if o["k"] not in NON_MODEL]
             if m["steps"] != isteps:
                 k = next((i for i, (a, b) in enumerate(zip(m["steps"], isteps)) if a != b), min(len(m["steps"]), len(isteps)))   # (or one is longer)
                 at = lambda xs: xs[k] if k < len(xs) else None  # noqa: E731
-                full = [i for i, o in enumerate(h["ops"]) if o["k"] != "roundtrip"]          # position in the whole history
+                full = [i for i, o in enumerate(h["ops"]) if o["k"] not in NON_MODEL]          # position in the whole history
                 corr = {"op": "registry.run", "step": full[k] if k < len(full) else len(h["ops"]), "operation": at(mops), "model": at(m["steps"]), "impl": at(isteps),
                         "history": mops[:k + 1]}
     judged = Outcome()
@@ -408,6 +485,11 @@ def run(ctx):
             out.distribution["def:" + ("stand-alone" if d["extends"] is None else "filter-only" if not d["columns"] and d["filtered"] else
                                        "extends+filter" if d["filtered"] else "extends")] += 1
             out.distribution["name:" + ("basic" if d["version"] == d["annotation"] else "pair")] += 1
+    rng3 = ctx.rng("c20-kept")
+    for _ in range(ctx.scale(24, 200)):
+        ops, regs = gen_history_kept(rng3)
+        hists.append(({"ops": ops, "late_import": rng3.random() < 0.3}, regs))
+        out.distribution["history:records kept across a registration"] += 1
     with ThreadPoolExecutor(max_workers=14) as ex:
         results = list(ex.map(lambda h: run_history(h[0]), hists))
     mo = ctx.driver.run([model_request(h) for h, _ in hists])
@@ -439,6 +521,10 @@ def _step_text(o, s):
         return "MafHeader.from_lines(%s, %s) -> %s" % (o["lines"], o.get("mode"), s)
     if o["k"] == "read":
         return "MafReader(lines=%s, %s), %s -> %s" % (o["lines"], o.get("mode"), "a valid row" if o.get("expect") == "accept" else "an ill-typed row" if o.get("expect") else "iterated", s)
+    if o["k"] == "keep":
+        return "parse %d record(s) under %s (Strict) and keep the objects -> %s" % (len(o["records"]), o["header"], s)
+    if o["k"] == "write_kept":
+        return "Strict writer opened now for %s, offered the records kept in slot %d -> %s" % (o["header"], o["slot"], s)
     if o["k"] == "roundtrip":
         return "MafWriter (Strict) under %s, %d record(s) %s, read back (Strict) -> %s" % (o["header"], len(o["records"]), o["records"][:1], s)
     return "%s -> %s" % (o["k"], s)
@@ -467,7 +553,7 @@ def replay_case(ctx, failure):
         msteps = list(m["steps"]) if (m is not None and corr != "unmodelled") else None
         for n, (o, s) in enumerate(zip(ops, res["steps"])):
             print("  step %d implementation: %s" % (n, _step_text(o, s)[:400]))
-            if o["k"] == "roundtrip":                  # not an operation of the model
+            if o["k"] in NON_MODEL:                  # not an operation of the model
                 continue
             ms = msteps.pop(0) if msteps else None
             if ms is not None and ms != s:
